@@ -68,11 +68,11 @@ def c01_legal(case, obs, flavor):
     """C01: every observable configuration is legal (quiescent points and on_transition hooks)."""
     tree = Tree(case["machine"])
     out = []
+    if obs and obs[0].get("E"):
+        return out              # start() raised: the library refused to start this machine
     for step, o in enumerate(obs):
         if o["S"] in ("uninitialized",):
             continue
-        if o["S"] == "stopped" and o.get("E"):
-            continue            # the library refused to start this machine
         for at, r in enumerate(o["T"]):
             if r.startswith("#t:"):
                 ids = [x for x in r[3:].split(",") if x]
@@ -135,10 +135,15 @@ def c03_order_accounting(case, obs, flavor):
     out = []
     if not obs or obs[0].get("E"):
         return out
+    # only states that carry both marker actions can be accounted for
+    def _has(lst, name):
+        return name in (lst if isinstance(lst, list) else [lst])
+    inst = {sid for sid, n in tree.cfg.items()
+            if _has(n.get("entry", []), "en:" + ref.rel(sid, mid)) and _has(n.get("exit", []), "ex:" + ref.rel(sid, mid))}
     active = None
     for step, o in enumerate(obs):
         if not _clean(o):
-            active = set(o["C"])
+            active = set(o["C"]) & inst
             continue
         if step == 0:
             active = set()
@@ -149,7 +154,7 @@ def c03_order_accounting(case, obs, flavor):
             # the initial entry is its own group: the leading records carrying the synthetic start event
             T = o["T"]
             k = 0
-            while k < len(T) and (T[k].startswith("#recv") or _ev_of(T[k]) == "<init>"):
+            while k < len(T) and (T[k].startswith("#aerr:") or (not T[k].startswith("#") and _ev_of(T[k]) == "<init>")):
                 k += 1
             segs2, tail2 = _segments(T[k:])
             groups = [T[:k]] + segs2 + ([tail2] if tail2 else [])
@@ -201,7 +206,7 @@ def c03_order_accounting(case, obs, flavor):
                 active.add(s)
             if seg and seg[-1].startswith("#t:"):
                 seen = set(x for x in seg[-1][3:].split(",") if x)
-                hist_free = {s for s in seen if tree.kind.get(s) != "history"}
+                hist_free = {s for s in seen if tree.kind.get(s) != "history"} & inst
                 if hist_free != active:
                     out.append({"kind": "accounting", "step": step, "at": None,
                                 "detail": f"entry/exit actions do not account for the configuration change: unexplained {sorted(hist_free ^ active)[:4]}"})
@@ -216,11 +221,11 @@ def c03_order_accounting(case, obs, flavor):
                         if not (s == lca or s.startswith(lca + ".")):
                             out.append({"kind": "frame", "step": step, "at": None,
                                         "detail": f"{tmark}: state {s} outside the subtree of {lca} was exited/entered"})
-        if set(o["C"]) != active:
-            extra = sorted(set(o["C"]) ^ active)
+        if (set(o["C"]) & inst) != active:
+            extra = sorted((set(o["C"]) & inst) ^ active)
             if _clean(o):
                 out.append({"kind": "accounting", "step": step, "at": None, "detail": f"quiescent configuration not explained by entry/exit actions: {extra[:4]}"})
-            active = set(o["C"])
+            active = set(o["C"]) & inst
     return out[:8]
 
 
@@ -332,9 +337,14 @@ def c05_engines_agree(case, obs_by_flavor):
     if a is None or b is None:
         return out
     from .impl import canon_ev
+    limit = int(case["machine"].get("maxIterations", 1000))
     for step, (x, y) in enumerate(zip(a, b)):
         if x.get("E") or y.get("E") or x.get("X") or y.get("X"):
             break       # error reporting differs by design (raised vs logged)
+        # a macrostep long enough to have hit a maxIterations cut is governed by C13, not compared here:
+        # the two engines bound different things (queued events vs. chained raises)
+        if x.get("cuts") or y.get("cuts") or max(sum(1 for r in o["T"] if r.startswith("#t:") or r.startswith("#recv:")) for o in (x, y)) >= limit:
+            break
         ta = [r for r in x["T"] if not r.startswith("#")]
         tb = [r for r in y["T"] if not r.startswith("#")]
         diffs = []
@@ -390,6 +400,117 @@ def c10_completion(case, obs, flavor):
                 if later_recv:
                     out.append({"kind": "activity-after-done", "step": step, "at": idx, "detail": f"events processed after the machine completed: {later_recv[:3]}"})
     return out[:4]
+
+
+def _ref_done(tree, s, active):
+    """reference done-ness: final; compound: its active child is done; parallel: every region done"""
+    k = tree.kind[s]
+    if k == "final":
+        return True
+    if k == "compound":
+        ak = [c for c in tree.kids[s] if c in active]
+        return len(ak) == 1 and _ref_done(tree, ak[0], active)
+    if k == "parallel":
+        regs = [c for c in tree.kids[s] if tree.kind[c] != "history"]
+        return all(c in active and _ref_done(tree, c, active) for c in regs)
+    return False
+
+
+def c10_ondone(case, obs, flavor):
+    """C10: a done.state.<S> event is processed only if S was done at some configuration of the
+    macrostep that raised it ("never while any region is not final"), and at most once per completion"""
+    tree = Tree(case["machine"])
+    out = []
+    active = set()
+    for step, o in enumerate(obs):
+        if not _clean(o) or (step == 0 and o.get("E")):
+            active = set(o["C"])
+            continue
+        window = [set(active)]          # configurations seen since the previous dequeued event
+        prev_recv_done = None
+        cur = set(active)
+        for at, r in enumerate(o["T"]):
+            if r.startswith("#t:"):
+                cur = {x for x in r[3:].split(",") if x}
+                window.append(set(cur))
+            elif r.startswith("#recv:"):
+                ev = r[6:]
+                if ev.startswith("done.state."):
+                    sid = ev[len("done.state."):]
+                    if sid in tree.kind and not any(_ref_done(tree, sid, c) for c in window if not tree.legal_problems(sorted(c))) \
+                            and all(not tree.legal_problems(sorted(c)) for c in window):
+                        out.append({"kind": "done-event-for-unfinished-state", "step": step, "at": at,
+                                    "detail": f"{ev} was raised although {sid} was not done in any configuration since the command started"})
+                # (no reset: a done event may have been raised by any earlier macrostep of this command)
+            elif "@" in r and step == 0 and _ev_of(r) == "<init>":
+                nm = _name_of(r)
+                if nm.startswith("en:"):
+                    cur = set(cur) | {_sid(tree.mid, nm[3:])}
+                    window.append(set(cur))
+        active = set(o["C"])
+    return out[:3]
+
+
+def c10_ondone_raised(case, obs, flavor):
+    """C10, positive direction: when a final state is entered, its parent's done event (if the parent
+    declares onDone) and the done event of every parallel ancestor with onDone that became done by this
+    entry must be processed later in the same command."""
+    tree = Tree(case["machine"])
+    mid = tree.mid
+    limit = int(case["machine"].get("maxIterations", 1000))
+    out = []
+    active = set()
+    for step, o in enumerate(obs):
+        if not _clean(o) or (step == 0 and o.get("E")):
+            active = set(o["C"])
+            continue
+        T = o["T"]
+        if o.get("cuts") or sum(1 for r in T if r.startswith("#t:") or r.startswith("#recv:")) >= limit:
+            active = set(o["C"])          # a maxIterations cut discards queued events (C13 governs that)
+            continue
+        cur = set(active)
+        seg_start = set(active)
+        expected = []           # (event type, index after which it must be received, shadowed_by)
+        finals_in_seg = []
+        for at, r in enumerate(T):
+            if r.startswith("#t:") or at == len(T) - 1:
+                if r.startswith("#t:"):
+                    cur = {x for x in r[3:].split(",") if x}
+                if not tree.legal_problems(sorted(cur)):
+                    for (f, fat) in finals_in_seg:
+                        if f not in cur:
+                            continue
+                        par = tree.parent[f]
+                        near = None
+                        if par is not None and tree.kind[par] == "compound" and tree.cfg[par].get("onDone"):
+                            expected.append(("done.state." + par, fat, None))
+                            near = par
+                        anc = (par if tree.kind[par] == "parallel" else tree.parent[par]) if par is not None else None
+                        while anc is not None:
+                            if tree.kind[anc] == "parallel" and tree.cfg[anc].get("onDone") and _ref_done(tree, anc, cur) \
+                                    and not _ref_done(tree, anc, seg_start):
+                                # a done state strictly below `anc` that declares onDone too takes the event instead
+                                below = [y for y in cur if y.startswith(anc + ".") and tree.cfg[y].get("onDone")
+                                         and tree.kind[y] in ("compound", "parallel") and _ref_done(tree, y, cur)]
+                                expected.append(("done.state." + anc, fat, near or (sorted(below)[0] if below else None)))
+                                near = near or anc
+                            anc = tree.parent[anc]
+                finals_in_seg = []
+                seg_start = set(cur)
+            elif "@" in r:
+                nm = _name_of(r)
+                if nm.startswith("en:"):
+                    sid = _sid(mid, nm[3:])
+                    cur = cur | {sid}
+                    if tree.kind.get(sid) == "final":
+                        finals_in_seg.append((sid, at))
+        if o["S"] == "running":
+            for ev, at, shadow in expected:
+                if not any(r == "#recv:" + ev for r in T[at:]):
+                    out.append({"kind": "done-event-missing", "step": step, "at": at, "missing": ev, "shadowed_by": shadow,
+                                "detail": f"{ev[11:]} completed but {ev} was never processed" + (f" (the nearer ancestor {shadow} declares onDone too)" if shadow else "")})
+        active = set(o["C"])
+    return out[:3]
 
 
 def c11_history(case, obs, flavor):
